@@ -185,7 +185,16 @@ def run_exact(spec, acc):
     elif domain == 'PiSquare':
         data.append(('sine', lambda xy: np.sin(xy[0]) * np.sin(xy[1]), pot_sine(domain)))
     n_unconv = 0
-    for piece, l, xiv in mine:
+    fixed_times = {}
+    if domain == 'LShape' and spec['k'] == 0:
+        # the recorded finding's own witness (re-entrant corner, aspect 32), so that it is re-observed on every run
+        for seg in segs:
+            if seg[2] == (7.875, 8.0):
+                mine.insert(0, seg)
+                fixed_times[id(seg)] = (2.0**-11, 2.0**-10)
+                break
+    for seg in mine:
+        piece, l, xiv = seg
         hx = xiv[1] - xiv[0]
         # time interval with aspect <= 32
         kt_min = max(0, int(math.ceil(math.log2(max(hx * hx / 32, 1e-12)) * -1)) if hx * hx / 32 < 1 else 0)
@@ -203,6 +212,9 @@ def run_exact(spec, acc):
         else:
             t0 = rng.randrange(max(1, int(round(1 / ht)))) * ht
         tiv = (t0, t0 + ht)
+        if id(seg) in fixed_times:
+            tiv = fixed_times[id(seg)]
+            t0, ht = tiv[0], tiv[1] - tiv[0]
         el = dummy(gamma, geo, tiv, xiv)
         for name, u0, M in data:
             if name == 'sine' and rng.random() < 0.4:
@@ -235,7 +247,11 @@ def run_exact(spec, acc):
                 acc.seen('piece:long-side-half', 0)
             acc.worst_of('linform vs exact potential (%s, %s)' % (domain, name), err)
             if not (err <= 1e-5) or not np.isfinite(val):
-                acc.violation('load-inexact:%s:%s' % (domain, name), '%s: <M0 u0, 1_elem> = %.15g, integral of the exact potential %.15g (rel %.2e); elem t=%r x=%r'
+                # mechanism key: where the element sits and how stretched it is (the re-entrant corner of the L-shape with
+                # aspect in (16, 32] is a recorded finding, see known-findings.txt)
+                where = 'reentrant-corner' if (domain == 'LShape' and (xiv[0] == 0 or xiv[1] == geo.length)) else 'elsewhere'
+                asp = 'aspect>16' if hx * hx / ht > 16 else 'aspect<=16'
+                acc.violation('load-inexact:%s:%s:%s:%s' % (domain, name, where, asp), '%s: <M0 u0, 1_elem> = %.15g, integral of the exact potential %.15g (rel %.2e); elem t=%r x=%r'
                               % (domain, val, r2, err, tiv, xiv), dict(w, computed=float(val), reference=r2))
             acc.sample(dict(w, computed=float(val), reference=r2), domain + name, per_class=1)
     if mine and n_unconv > len(mine) // 3:
